@@ -2,6 +2,7 @@
 #include "sweep.h"
 
 static int g_nvar, g_pos;
+static const char *g_prefix = "AT+B=";
 
 static void build(cat_var_type t, int ds, cat_var_access acc, int nvar, int pos, int handler)
 {
@@ -27,7 +28,8 @@ static int run_text(const uint8_t *text, int tlen)
 {
         uint8_t line[400];
         int n = 5;
-        memcpy(line, "AT+B=", 5);
+        int n0 = (int)strlen(g_prefix);
+        memcpy(line, g_prefix, (size_t)n0); n = n0;
         for (int i = 0; i < g_nvar; i++) {
                 if (i) line[n++] = ',';
                 if (i == g_pos) { memcpy(line + n, text, (size_t)tlen); n += tlen; }
@@ -239,6 +241,18 @@ int main(int argc, char **argv)
                                                         build(t, ds, (cat_var_access)acc, 1, 0, (idx & 1));
                                                         snprintf(SW.extra, sizeof SW.extra, "type=%s data_size=%d access=%d single variable, texts with NUL and '?'", ti ? "string" : "hexbuf", ds, acc);
                                                         if (all_texts(B, 6, 4)) goto out;
+                                                        /* the same variable behind an implicit-write command: the text starts right after the name, '=' is an ordinary byte */
+                                                        {
+                                                                static const char C[] = {'=', '"', 'A', '1', 'a'};
+                                                                build(t, ds, (cat_var_access)acc, 1, 0, (idx & 1));
+                                                                strcpy(W.cmd[0].name, "D"); W.cmd[0].implicit = 1; W.cmd[0].hmask = HM_W;
+                                                                world_build();
+                                                                g_prefix = "ATD";
+                                                                snprintf(SW.extra, sizeof SW.extra, "type=%s data_size=%d access=%d implicit-write command", ti ? "string" : "hexbuf", ds, acc);
+                                                                int bad = all_texts(C, 5, 5);
+                                                                g_prefix = "AT+B=";
+                                                                if (bad) goto out;
+                                                        }
                                                 }
                                         }
                                 }
